@@ -55,15 +55,12 @@ func propScalarMult(t *rapid.T) {
 	alias := rapid.Bool().Draw(t, "alias") // receiver aliases P
 	lp, rep := represent(t, pc.P, "rep")
 	ls := lib.Sc(s)
-	rcv := secp256k1.NewIdentityPoint()
-	switch {
-	case alias:
-		rcv = lp
-	case rapid.IntRange(0, 3).Draw(t, "zero-rcv") == 0:
-		rcv = &secp256k1.Point{}
+	rcv, rk := lib.Receiver(rapid.IntRange(0, lib.ReceiverKinds-1).Draw(t, "rcv"))
+	if alias {
+		rcv, rk = lp, "aliases-P"
 	}
 	cl, nt := splitClasses(s)
-	cl = append(cl, "scalar:"+kind, "point:"+pc.Desc, "entry:"+entry, "rep:"+rep)
+	cl = append(cl, "scalar:"+kind, "point:"+pc.Desc, "entry:"+entry, "rep:"+rep, "receiver:"+rk)
 	if alias {
 		cl = append(cl, "alias")
 	}
